@@ -479,19 +479,35 @@ func structGetter(in any) (func(string) any, bool) {
 		return func(string) any { return nil }, true
 	case map[string]any:
 		return func(k string) any { return m[k] }, true
+	// typed maps: a missing key is absent, exactly as in a map[string]any
 	case map[string]string:
 		return func(k string) any {
 			if v, ok := m[k]; ok {
 				return v
 			}
-			return ""
+			return nil
 		}, true
 	case map[string]int:
-		return func(k string) any { return m[k] }, true
+		return func(k string) any {
+			if v, ok := m[k]; ok {
+				return v
+			}
+			return nil
+		}, true
 	case map[string]float64:
-		return func(k string) any { return m[k] }, true
+		return func(k string) any {
+			if v, ok := m[k]; ok {
+				return v
+			}
+			return nil
+		}, true
 	case map[string]bool:
-		return func(k string) any { return m[k] }, true
+		return func(k string) any {
+			if v, ok := m[k]; ok {
+				return v
+			}
+			return nil
+		}, true
 	case *map[string]any:
 		if m == nil {
 			return func(string) any { return nil }, true
